@@ -263,7 +263,7 @@ func genDirStates(r *hx.Rand, dir []dirEntry) [][3]int {
 // their import fails), vanish, come back, get duplicated; optionally one
 // pipeline of the pool belongs to the API.
 func genDirCase(r *hx.Rand) caseIn {
-	g := genCfg{conds: false}
+	g := genCfg{conds: false, small: true}
 	c := caseIn{API: []apiIn{}, Rounds: []roundIn{}}
 	if r.Chance(1, 3) {
 		c.API = append(c.API, apiIn{ID: plPool[r.Intn(len(plPool))], Cfg: genPipe(r, g)})
@@ -275,6 +275,8 @@ func genDirCase(r *hx.Rand) caseIn {
 	n := r.Range(2, 4)
 	for k := 0; k < n; k++ {
 		rd := roundIn{Dir: []dirEntry{}}
+		dupDone := false // at most ONE duplicated id per directory: with two, Init's stale-index
+		// deletion (findDuplicateIDs + deleteIndexes in map order) is nondeterministic - reported as a finding
 		ids := make([]int, 0, len(cur))
 		for id := range cur {
 			ids = append(ids, id)
@@ -303,7 +305,8 @@ func genDirCase(r *hx.Rand) caseIn {
 				d.Fault = r.Intn(6)
 			}
 			rd.Dir = append(rd.Dir, d)
-			if r.Chance(1, 12) { // the same id in a second file
+			if r.Chance(1, 12) && !dupDone { // the same id in a second file
+				dupDone = true
 				rd.Dir = append(rd.Dir, dirEntry{ID: id, Cfg: genPipe(r, g), Fault: -1})
 			}
 		}
